@@ -95,6 +95,11 @@ CHECKS = {
   note="bounded: <=4 simultaneous deviations from one base schema; Resolve is the reference for what a schema means; canonical form = maps sorted, parent / appliesTo lists as sets, nil == empty",
   tech="deviation-bounded exhaustive enumeration of schema ASTs through both codecs with a canonical resolved-schema comparison",
   ref="DESIGN.md §5 C17"),
+ "C15": dict(
+  text="bounded-exhaustive enumeration of policies over a schema with a required and an optional attribute of every type (incl. decimal, ipaddr, datetime, duration, sets, nested records, entity references), tags on two entity types, a two-level hierarchy, an action applying to two principal and two resource types, an action group and optional context members: every unary / binary operator form over 47 (quick: 32 for binary) leaves (variables, existing / optional / missing attribute paths, literals and extension values) in 6 scope combinations, 15 has-guard forms x 17 guarded paths x 17 used paths x 10 uses, 6 tag-guard forms; every policy accepted by the validator in strict or permissive mode is evaluated on 1000+ conforming environments (every action / principal type / resource type; optional attributes and tags present and absent; entities present and absent; 4 contexts) and must not fail with a type, arity, unknown-function, missing-attribute or missing-tag error",
+  note="bounded: one schema, condition depth <=3; environments are built from the schema AND accepted by validate.Entities / validate.Request; error classes recognised by the library's error texts; overflow, absent entities and extension literal errors are allowed",
+  tech="bounded-exhaustive enumeration of (accepted policy, conforming environment) pairs with an error-class oracle",
+  ref="DESIGN.md §5 C15"),
  "C20": dict(
   text="explicit-state BFS over all container operation histories up to the stated depth from 14 initial states, every transition executed on the real PolicySet and compared with a Go-map model and the authorization decision table",
   note="bounded: ids {a, policy1, policy10, policy2}+loaded ids, 5 policy kinds, depth 4 (quick) / 6 (thorough); model = plain Go map",
